@@ -91,7 +91,9 @@ EXC_KINDS = ['ValueError', 'KeyError', 'TypeError', 'AssertionError', 'RuntimeEr
              'IndexError', 'StopAsyncIteration', 'BufferError', 'PjBaseError', 'PjDeserializationError', 'PjIdentityError',
              'PjValidationError', 'JSONDecodeError', 'PjValidationErrorLive', 'ValueErrorLive',
              'ValueErrorEmpty', 'KeyErrorEmpty', 'AssertionErrorEmpty', 'ValueErrorBlank', 'Xq9EmptyStr', 'ValueErrorMultiline',
-             'Xq9BadRepr', 'GroupOfOneRpcError', 'NestedGroupOfOneRpcError', 'GroupOfTwo', 'KeyErrorSubclass']
+             'Xq9BadRepr', 'GroupOfOneRpcError', 'NestedGroupOfOneRpcError', 'GroupOfTwo', 'KeyErrorSubclass',
+             'CausedByRpcError', 'CausedByRpcErrorDeep', 'ContextIsRpcError', 'CausedByLibError', 'CausedByInvalidParams']
+KEYED_KINDS = ['int', 'mixed', 'float', 'consts', 'nested', 'neg-and-str']
 LIB_ERROR_NAMES = ['ParseError', 'InvalidRequestError', 'MethodNotFoundError', 'InvalidParamsError', 'InternalError', 'ServerError']
 
 
@@ -256,6 +258,13 @@ def typed_calls(rng: random.Random, full: bool) -> Iterator[Tuple[str, str, List
         for data in ('__absent__', None, {'k': [1]}, 'text'):
             yield 'raises-library-error-class', 'raiselib', [name] if data == '__absent__' else {'name': name, 'data': data}
     yield 'raises-library-error-class', 'raiselib', ['NoSuchError']
+    for kind in KEYED_KINDS:
+        yield 'mapping-with-non-string-keys', 'keyed', [kind]
+        yield 'mapping-with-non-string-keys', 'keyed', {'kind': kind, 'how': 'error'}
+    # one long-lived error object, updated and raised again and again (the world keeps it between requests)
+    for data in ('__absent__', {'n': 1}, None, 'text', '__absent__', [], 0, {'n': 2}):
+        for peek in (True, False):
+            yield 'long-lived-error-object', 'stale', {'peek': peek} if data == '__absent__' else [data, peek]
     for kind in EXC_KINDS:
         yield 'boom', 'boom', [kind, f'{kind[:3]}{rng.randrange(1000)}']
     yield 'boom', 'boom', ['NoSuchKind', 'm']
@@ -281,6 +290,7 @@ ELEMENT_KINDS = ['call_slowfail', 'call_wrapped', 'call_slow', 'call_ok', 'call_
                  'notify_ok', 'notify_unknown', 'notify_unbound', 'notify_rpcerr', 'notify_exc',
                  'invalid_obj', 'scalar', 'nullid_call']
 ID_SCHEMES = ['int', 'mixed', 'exotic']
+LARGE_BATCH_LENGTHS = (17, 33, 65, 70, 101, 129, 260)
 
 
 def element_id(scheme: str, pos: int) -> Any:
@@ -382,6 +392,18 @@ def batches(rng: random.Random, max_exhaustive_len: int, sampled: int, max_len: 
         for p, v in enumerate((pair[0], pair[1], 9, pair[0], pair[1])):
             els[p]['id'] = v
         yield 'batch-two-duplicated-ids', dumps(els), 5
+    # large batches whose elements really suspend (lengths around powers of two and round numbers, where pool / queue / limit
+    # sizes like to sit): every element is in flight at the same time on a concurrent dispatcher
+    for n in LARGE_BATCH_LENGTHS:
+        els = []
+        for p in range(n):
+            if p % 7 == 3:
+                els.append(obj(method='slow', params=[f't{p}', 1 + p % 3]))
+            elif p % 11 == 5:
+                els.append(obj(id=p + 1, method='slowfail', params=[f't{p}', 1 + p % 2, 'rpc' if p % 2 else 'exc']))
+            else:
+                els.append(obj(id=p + 1, method='slow', params=[f't{p}', 1 + p % 3]))
+        yield 'batch-large', dumps(els), n
     # lengths around the size limits used by the configurations (1 and 3)
     for n in (1, 2, 3, 4, 5):
         yield 'batch-size-boundary', dumps([make_element('call_ok', p) for p in range(n)]), n
